@@ -575,6 +575,14 @@ class DateTimeFieldFormat(AbstractFieldFormat):
         self._has_date = any(
             directive in self.strptime_format for directive in DateTimeFieldFormat._STRPTIME_DATE_DIRECTIVES
         )
+        try:
+            time.strptime("", self.strptime_format)
+        except ValueError:
+            # Expected: the empty text does not match the format.
+            pass
+        except re.error:
+            # A format using the same placeholder twice makes time.strptime() fail for any value.
+            raise errors.InterfaceError("date format must use each of DD, MM, YY, YYYY, hh, mm, ss only once: %s" % rule)
 
     def sql_ansi_type(self):
         # FIXME: Use timestamp for ANSI, date, datetime and time for others.
